@@ -24,7 +24,9 @@ LEVEL = "proof"
 MODULE = "Sqfs.Props.C14"
 REQUIRED = ["Sqfs.C14.shape_prefix_rejected", "Sqfs.C14.shape_suffix_complete", "Sqfs.C14.shape_crash_safe",
             "Sqfs.C14.super_region_invariant", "Sqfs.C14.provisional_fields", "Sqfs.C14.prefix_rejected", "Sqfs.C14.suffix_complete",
-            "Sqfs.C14.suffix_accepted", "Sqfs.C14.crash_safe", "Sqfs.C14.final_super_last", "Sqfs.C14.run_shape"]
+            "Sqfs.C14.suffix_accepted", "Sqfs.C14.crash_safe", "Sqfs.C14.final_super_last", "Sqfs.C14.run_shape",
+            # witness lemmas of the in-file instances (audit C): the hypotheses hold of exLog / exRun
+            "Sqfs.C14.exLog_shape", "Sqfs.C14.exRun_ok", "Sqfs.C14.exRun_valid", "Sqfs.C14.exRun_size"]
 SUPER = 96
 COMPS = {
     # name -> list of -X option strings (None = defaults); the non-default ones make the compressor write its
